@@ -15,6 +15,10 @@ CLAIMED = {
              note="Trusted: the invariant (gaps>=0, row length, no all-gap column) is what the previous step establishes - asserted as post-condition of the same harness; path validity contract asserted on the DP in C07. Sizes bounded (groups <=3+2, <=6 columns).", ref="DESIGN.md §4 C10"),
  "C01": dict(text="Bounded model checking of each stage between the DP path and the caller's rows: path completion for every valid path, the merge step from any valid state, gap-vector -> row rendering and the array API for symbolic residue bytes, zero-length removal and rank restoration with the real comparators.",
              note="Trusted: composition over the guide tree is a paper induction (DESIGN.md §5); qsort model; small-capacity msa objects; DP returns a valid path (C07). Writers are C15/C06.", ref="DESIGN.md §4 C01"),
+ "C17": dict(text="Bounded model checking of lib/src/msa_cmp.c: compare_pair's six counters equal the definition for every pair of alignments of two sequences up to the width bound, and kalign_msa_compare's score equals 100*reproduced/reference relations (same double expression), lies in [0,100], is 100 for alignments equal up to row order and all-gap columns, for arbitrary row orders and names.",
+             note="Trusted: qsort model over the real comparators, ctype tables of the real libc, CBMC's IEEE-754 division. <=3 rows, widths <=5; gap-free files excluded by the property.", ref="DESIGN.md §4 C17"),
+ "C15": dict(text="Bounded model checking of the three writers: their output on an in-memory tape is parsed by an independent reader (FASTA 60-column wrapping, Clustal/MSF header, every sequence in every block, <=60 columns per line, separators), and the values handed to printf for the MSF header (length, molecule type, per-row and total GCG checksums) equal a reference computed from the GCG definition, for all row contents and both molecule kinds.",
+             note="Trusted: the I/O model (fprintf/snprintf/fopen -> tape; integer rendering by libc), alloc_line_buffer stand-in installed by goto-instrument --replace-calls, qsort/ctype/strstr models. Name characters concrete (lengths enumerated); widths as listed incl. 59/60/61/120/121 (thorough).", ref="DESIGN.md §4 C15"),
 }
 NA_REASON = "check not built yet in this revision (see DESIGN.md §4 for the planned harness); not claimed until its quick tier passes on the unchanged tree"
 
